@@ -103,8 +103,8 @@ Fixpoint tsize (l : list tok) : nat := match l with [] => 0 | x :: r => tok_size
 Inductive node :=
 | NContent (s : str)
 | NIllegal                                                        (* also comment, doc and inline comment nodes: nothing is rendered *)
-| NOutput (r : rexpr)                                             (* output statement *)
-| NEmit (r : rexpr)                                               (* echo, cycle, render: writes the value of r *)
+| NOutput (r : rexpr)                                             (* output statement; echo (EchoNode is an OutputNode: a translate block accepts it) *)
+| NEmit (r : rexpr)                                               (* cycle, render, echo at the end of the stream: writes the value of r *)
 | NInclude (r : rexpr)
 | NAssign (r : rexpr)
 | NIncr (dec : bool)                                              (* increment / decrement *)
@@ -230,7 +230,7 @@ Section Parser.
     let st1 := adv st in
     match toks st1 with
     | [] => POk (NEmit (RVal [] 0)) st1 l
-    | _ => match inner false st1 with inl (r, st2) => POk (NEmit r) st2 l | inr (e, st2) => PErr e st2 l end
+    | _ => match inner false st1 with inl (r, st2) => POk (NOutput r) st2 l | inr (e, st2) => PErr e st2 l end
     end.
 
   Definition p_leaf (n : node) (st : stream) (l : log) : pres node := POk n st l.     (* break, continue; COMMENT and DOC tokens *)
